@@ -79,6 +79,19 @@ def check_property(pid, tier, seed, args, t0):
                     o['weak_path'] = True
                     o['loop_count_changed'] = [base_loops[name], r['info']['n_loops']]
 
+    # A contract may state one half of a pair whose *composition* is the property (the writers of
+    # the cache-file format: C16 is about write o read).  A changed format that both halves agree
+    # on breaks the half's clauses but not the property, so what fails there is decided by the
+    # replay of the pair (weak, 10.3), never reported on the solver's word alone.
+    if not args.record_expected:
+        for r in results:
+            kind, name = r['task']
+            con = C.CONTRACTS.get(name) if kind != 'lemma' else None
+            if con is not None and getattr(con, 'replay_decided', False):
+                for o in r['obligations']:
+                    o['weak_path'] = True
+                    o['replay_decided'] = True
+
     # an obligation that relied on an unproved lemma is undecided
     def lemma_closure_ok(names):
         for n in names:
